@@ -53,6 +53,20 @@ func fmtValues(thorough bool) []fmtVal {
 			out = append(out, v)
 		}
 	}
+	// non-minimal cohort encodings (trailing zeros inside the coefficient), ties included
+	for _, base := range []string{"5", "15", "25", "125", "995", "1234565", "12345678901234567890125", "12345678901234567890250", "1", "99"} {
+		for z := 1; z <= 33; z++ {
+			c := new(big.Int).Mul(bi(base), ref.Pow10(z))
+			if c.Cmp(ref.Cmax) > 0 {
+				break
+			}
+			if thorough || z <= 4 || z%2 == 1 && z > 14 || z == 32 || z == 33 {
+				for _, q := range []int{-z - 2, -z - 1, -z, -z + 1, 0} {
+					add(mkFmtVal(z%2 == 0, c, q))
+				}
+			}
+		}
+	}
 	for _, c := range cs {
 		L := ref.NumDigits(c)
 		var qs []int
